@@ -154,7 +154,15 @@ impl Stitch {
                         } else {
                             return Some(entry);
                         }
-                    } else if let Some(hunk) = index_hunks.next().await {
+                    } else if let Some(hunk) = {
+                        let hunk = index_hunks.next().await;
+                        // Hunks that could not be read were skipped: say so, since their
+                        // entries are missing from this listing.
+                        for err in index_hunks.errors.drain(..) {
+                            self.monitor.error(err);
+                        }
+                        hunk
+                    } {
                         if let Some(last_apath) = hunk.last().map(|entry| entry.apath.clone()) {
                             self.last_apath = Some(last_apath);
                         }
@@ -169,6 +177,12 @@ impl Stitch {
                     match Band::open(&self.archive, *band_id).await {
                         Ok(band) => match band.index().try_iter_available_hunks().await {
                             Ok(mut index_hunks) => {
+                                if let Err(err) =
+                                    check_hunks_present(&band, index_hunks.remaining_hunk_numbers())
+                                        .await
+                                {
+                                    self.monitor.error(err);
+                                }
                                 if let Some(last) = &self.last_apath {
                                     index_hunks = index_hunks.advance_to_after(last)
                                 }
@@ -208,6 +222,31 @@ impl Stitch {
                 }
             }
         }
+    }
+}
+
+/// Check that the index hunks present in a band are numbered consecutively from zero,
+/// and, if the band is complete and its tail says how many hunks there should be, that
+/// they are all there.
+async fn check_hunks_present(band: &Band, present: &[u32]) -> Result<()> {
+    let expected_count = band
+        .get_info()
+        .await
+        .ok()
+        .and_then(|info| info.index_hunk_count);
+    let consecutive = present.iter().enumerate().all(|(i, n)| *n as usize == i);
+    let count_ok = expected_count.is_none_or(|c| c == present.len() as u64);
+    if consecutive && count_ok {
+        Ok(())
+    } else {
+        Err(Error::InvalidMetadata {
+            details: format!(
+                "Band {} is missing index hunks: hunks present are {:?}, band tail says {:?}",
+                band.id(),
+                present,
+                expected_count
+            ),
+        })
     }
 }
 
